@@ -273,6 +273,9 @@ Proof.
   exists x. eexists. split; [unfold dirstr; cbn; reflexivity|]. inversion Hs as [|? ? [Hx _] _]; subst. exact Hx.
 Qed.
 
+Lemma rev_cons_rev : forall A (x : A) l, rev (x :: rev l) = l ++ [x].
+Proof. intros; cbn [rev]. now rewrite rev_involutive. Qed.
+
 Lemma clean_join_spec : forall rooted comps f,
   Forall comp_ok comps -> file_elem_ok f ->
   path_join2 (render_dir rooted comps) f = render_dir rooted comps ++ f.
@@ -285,7 +288,7 @@ Proof.
     rewrite (path_clean_eq _ slash (dirstr comps ++ slash :: f)) by reflexivity.
     rewrite Ascii.eqb_refl. cbn [app split_on]. rewrite Ascii.eqb_refl.
     rewrite split_dir_file by assumption. cbn [fold_left]. rewrite clean_step_empty.
-    rewrite fold_dir_file by assumption. rewrite app_nil_r. cbn [rev]. rewrite rev_involutive.
+    rewrite fold_dir_file by assumption. rewrite app_nil_r, rev_cons_rev.
     rewrite join_with_render by assumption. reflexivity.
   - cbn [app]. destruct comps as [|c comps].
     + (* no directory: Clean(f) *)
@@ -302,7 +305,7 @@ Proof.
       rewrite (path_clean_eq _ x' tl1) by assumption.
       assert (Hxs : Ascii.eqb x' slash = false) by now apply Ascii.eqb_neq.
       rewrite Hxs. rewrite split_dir_file by assumption. rewrite fold_dir_file by assumption.
-      rewrite app_nil_r. cbn [rev]. rewrite rev_involutive. rewrite join_with_render by assumption.
+      rewrite app_nil_r, rev_cons_rev. rewrite join_with_render by assumption. fold (dirstr (c :: comps)).
       destruct (dirstr (c :: comps) ++ f) eqn:E2; [|reflexivity].
       exfalso. destruct (dirstr_cons_head c comps f Hc1) as [? [? [E3 _]]]. congruence.
 Qed.
@@ -526,11 +529,13 @@ Section Composition.
 
   Lemma init_targets_spec : forall fl tgt ids fs acc fs1 tgts,
     NoDup ids ->
-    cfoldM (init_target sfeat fl tgt) ids (fs, acc) = COk (fs1, tgts) ->
-    (forall id, In id ids -> inject tgt id <> None) /    tgts = acc ++ map (fun id => (id, tpath tgt id, start_content fl fs (tpath tgt id))) ids /    (forall q, ~ In q (map (tpath tgt) ids) -> fs_lookup q fs1 = fs_lookup q fs).
+    cfoldM (init_target fl tgt) ids (fs, acc) = COk (fs1, tgts) ->
+    (forall id, In id ids -> inject tgt id <> None) /\
+    tgts = acc ++ map (fun id => (id, tpath tgt id, start_content fl fs (tpath tgt id))) ids /\
+    (forall q, ~ In q (map (tpath tgt) ids) -> fs_lookup q fs1 = fs_lookup q fs).
   Proof.
     intros fl tgt; induction ids as [|id ids IH]; intros fs acc fs1 tgts Hnd H; cbn [cfoldM] in H.
-    - injection H as <- <-. repeat split; auto. intros ? []. now rewrite app_nil_r.
+    - injection H as <- <-. split; [intros ? []|]. split; [cbn [map]; now rewrite app_nil_r|]. reflexivity.
     - inversion Hnd as [|? ? Hnotin Hnd']; subst. unfold init_target at 1 in H.
       destruct (inject tgt id) as [path|] eqn:Ei; [|discriminate]. cbn [cbind] in H.
       apply IH in H; [|assumption]. destruct H as [Hall [Ht Hq]].
@@ -562,44 +567,58 @@ Section Composition.
     subst py. eapply target_paths_distinct; eauto.
   Qed.
 
+  Lemma targets_compose : forall fl src ids_all fs0 tgt (l : list Z) tgts1 tgts2,
+    Forall2 (fun a b : target => create_in (map fst src) a = COk b)
+            (map (fun id => (id, tpath tgt id, start_content fl fs0 (tpath tgt id))) l) tgts1 ->
+    Forall2 (fun t t' : target => same_target t t' /\
+               cfoldM (table_into fl ids_all (fst (fst t))) src (snd t) = COk (snd t')) tgts1 tgts2 ->
+    Forall2 (fun id (t2 : target) => t2 = (id, tpath tgt id, snd t2) /\
+               file_content fl src ids_all id (start_content fl fs0 (tpath tgt id)) = COk (snd t2)) l tgts2.
+  Proof.
+    intros fl src ids_all fs0 tgt; induction l as [|id l IH]; intros tgts1 tgts2 Ec Er.
+    - inversion Ec; subst. inversion Er; subst. constructor.
+    - cbn [map] in Ec. inversion Ec as [|? t1 ? l1 Hc1 Hcr]; subst. inversion Er as [|? t2 ? l2 Hr1 Hrr]; subst.
+      constructor; [|now apply (IH l1)].
+      unfold create_in in Hc1.
+      destruct (lift (create_tables (start_content fl fs0 (tpath tgt id)) (map fst src))) as [d1|] eqn:Ed1; [|discriminate].
+      cbn [cbind] in Hc1. injection Hc1 as <-. destruct Hr1 as [[Hs1 Hs2] Hr1]. cbn in Hs1, Hs2, Hr1.
+      destruct t2 as [[id2 path2] d2]. cbn in *. subst. split; [reflexivity|].
+      unfold Cli.Model.file_content. rewrite Ed1. cbn [cbind]. exact Hr1.
+  Qed.
+
   (** *** cli_composition *)
   Theorem cli_composition : forall (a : args) src fs0 fs',
     a_source a = Some src ->
     cli_run a fs0 = COk fs' ->
-    NoDup (a_ids a) /    (forall id, In id (a_ids a) -> exists path d,
-        inject (a_target a) id = Some path /        file_content (a_flags a) src (a_ids a) id (start_content (a_flags a) fs0 path) = COk d /        fs_lookup path fs' = Some d) /    (forall q, (forall id, In id (a_ids a) -> inject (a_target a) id <> Some q) -> fs_lookup q fs' = fs_lookup q fs0).
+    NoDup (a_ids a) /\
+    (forall id, In id (a_ids a) -> exists path d,
+        inject (a_target a) id = Some path /\
+        file_content (a_flags a) src (a_ids a) id (start_content (a_flags a) fs0 path) = COk d /\
+        fs_lookup path fs' = Some d) /\
+    (forall q, (forall id, In id (a_ids a) -> inject (a_target a) id <> Some q) -> fs_lookup q fs' = fs_lookup q fs0).
   Proof.
     intros a src fs0 fs' Hsrc H. unfold Cli.Model.cli_run in H. rewrite Hsrc in H.
     destruct (a_tms_ok a); [|discriminate]. cbn [negb] in H.
     destruct (nodupz (a_ids a)) eqn:End; [|discriminate]. cbn [negb] in H.
     apply nodupz_NoDup in End.
-    destruct (cfoldM (init_target sfeat (a_flags a) (a_target a)) (a_ids a) (fs0, [])) as [[fs1 tgts0]|] eqn:Ei; [|discriminate].
+    destruct (cfoldM (init_target (a_flags a) (a_target a)) (a_ids a) (fs0, [])) as [[fs1 tgts0]|] eqn:Ei; [|discriminate].
     cbn [cbind] in H.
     destruct (init_targets_spec _ _ _ _ _ _ _ End Ei) as [Hall [Ht0 Hq]]. cbn [app] in Ht0.
-    destruct (cmapM (create_in sfeat (map fst src)) tgts0) as [tgts1|] eqn:Ec; [|discriminate]. cbn [cbind] in H.
+    destruct (cmapM (create_in (map fst src)) tgts0) as [tgts1|] eqn:Ec; [|discriminate]. cbn [cbind] in H.
     destruct (cfoldM (run_table (a_flags a) (a_ids a)) src tgts1) as [tgts2|] eqn:Er; [|discriminate]. cbn [cbind] in H.
     injection H as <-.
     apply cmapM_Forall2 in Ec. apply run_tables_per_target in Er.
     (* every final target: same id and path as opened, content = the per-file composition *)
-    assert (HF : Forall2 (fun id (t2 : target) => t2 = (id, tpath (a_target a) id, snd t2) /               file_content (a_flags a) src (a_ids a) id (start_content (a_flags a) fs0 (tpath (a_target a) id)) = COk (snd t2))
-               (a_ids a) tgts2).
-    { subst tgts0. revert tgts1 tgts2 Ec Er. generalize (a_ids a) at 1 3 as l.
-      induction l as [|id l IH]; intros tgts1 tgts2 Ec Er.
-      - inversion Ec; subst. inversion Er; subst. constructor.
-      - cbn [map] in Ec. inversion Ec as [|? t1 ? l1 Hc1 Hcr]; subst. inversion Er as [|? t2 ? l2 Hr1 Hrr]; subst.
-        constructor; [|now apply (IH l1)].
-        unfold create_in in Hc1.
-        destruct (lift (create_tables (start_content (a_flags a) fs0 (tpath (a_target a) id)) (map fst src))) as [d1|] eqn:Ed1; [|discriminate].
-        cbn [cbind] in Hc1. injection Hc1 as <-. destruct Hr1 as [[Hs1 Hs2] Hr1]. cbn in Hs1, Hs2, Hr1.
-        destruct t2 as [[id2 path2] d2]. cbn in *. subst. split; [reflexivity|].
-        unfold Cli.Model.file_content. rewrite Ed1. cbn [cbind]. exact Hr1. }
+    assert (HF := targets_compose (a_flags a) src (a_ids a) fs0 (a_target a) (a_ids a) tgts1 tgts2).
+    subst tgts0. specialize (HF Ec Er).
     assert (Hpaths : map tpath_of tgts2 = map (tpath (a_target a)) (a_ids a)).
     { clear - HF. induction HF as [|id t2 l l2 [Ht _] _ IH]; [reflexivity|]. cbn [map]. rewrite IH. f_equal. now rewrite Ht. }
     split; [exact End|]. split.
     - intros id Hin.
       destruct (inject (a_target a) id) as [path|] eqn:Einj; [|now apply Hall in Hin].
       assert (Hp : tpath (a_target a) id = path) by (unfold tpath; now rewrite Einj).
-      assert (Hex : exists t2, In t2 tgts2 /\ t2 = (id, path, snd t2) /                 file_content (a_flags a) src (a_ids a) id (start_content (a_flags a) fs0 path) = COk (snd t2)).
+      assert (Hex : exists t2, In t2 tgts2 /\ t2 = (id, path, snd t2) /\
+                 file_content (a_flags a) src (a_ids a) id (start_content (a_flags a) fs0 path) = COk (snd t2)).
       { clear - HF Hin Hp. induction HF as [|id0 t2 l l2 [Ht Hc] _ IH]; [destruct Hin|].
         destruct Hin as [->|Hin].
         - exists t2. rewrite Hp in *. split; [now left|]. split; assumption.
@@ -618,8 +637,8 @@ Section Composition.
   (** *** overwrite_forgets: with -overwrite the target files do not depend on what was there *)
   Lemma init_targets_overwrite : forall fl tgt ids fs fs' acc fs1 tgts,
     fl_overwrite fl = true ->
-    cfoldM (init_target sfeat fl tgt) ids (fs, acc) = COk (fs1, tgts) ->
-    exists fs1', cfoldM (init_target sfeat fl tgt) ids (fs', acc) = COk (fs1', tgts).
+    cfoldM (init_target fl tgt) ids (fs, acc) = COk (fs1, tgts) ->
+    exists fs1', cfoldM (init_target fl tgt) ids (fs', acc) = COk (fs1', tgts).
   Proof.
     intros fl tgt; induction ids as [|id ids IH]; intros fs fs' acc fs1 tgts Ho H; cbn [cfoldM] in *.
     - injection H as <- <-. eauto.
@@ -635,10 +654,10 @@ Section Composition.
     destruct (a_tms_ok a); [|discriminate]. cbn [negb] in *.
     destruct (a_source a) as [src|]; [|discriminate].
     destruct (nodupz (a_ids a)); [|discriminate]. cbn [negb] in *.
-    destruct (cfoldM (init_target sfeat (a_flags a) (a_target a)) (a_ids a) (fs0, [])) as [[fsa tgts0]|] eqn:Ei; [|discriminate].
+    destruct (cfoldM (init_target (a_flags a) (a_target a)) (a_ids a) (fs0, [])) as [[fsa tgts0]|] eqn:Ei; [|discriminate].
     cbn [cbind] in H.
     destruct (init_targets_overwrite _ _ _ _ fs0' _ _ _ Ho Ei) as [fsb Ei']. rewrite Ei'. cbn [cbind].
-    destruct (cmapM (create_in sfeat (map fst src)) tgts0) as [tgts1|]; [|discriminate]. cbn [cbind] in *.
+    destruct (cmapM (create_in (map fst src)) tgts0) as [tgts1|]; [|discriminate]. cbn [cbind] in *.
     destruct (cfoldM (run_table (a_flags a) (a_ids a)) src tgts1) as [tgts2|]; [|discriminate]. cbn [cbind] in *.
     eauto.
   Qed.
@@ -646,7 +665,8 @@ Section Composition.
   Theorem overwrite_forgets : forall (a : args) fs0 fs0' fs1,
     fl_overwrite (a_flags a) = true ->
     cli_run a fs0 = COk fs1 ->
-    exists fs1', cli_run a fs0' = COk fs1' /      forall id path, In id (a_ids a) -> inject (a_target a) id = Some path ->
+    exists fs1', cli_run a fs0' = COk fs1' /\
+      forall id path, In id (a_ids a) -> inject (a_target a) id = Some path ->
         fs_lookup path fs1 = fs_lookup path fs1' /\ fs_lookup path fs1 <> None.
   Proof.
     intros a fs0 fs0' fs1 Ho H.
